@@ -31,7 +31,7 @@ hlib.encoded(hs.read_range, hs._ReadRangeProducer.resumeProducing, hs._ReadRange
              sc._FakeRemoteReference.callRemote, sc._StorageServer.get_buckets, sc._StorageServer.slot_readv,
              server_mod.FoolscapStorageServer.remote_get_buckets, server_mod.FoolscapStorageServer.remote_slot_readv,
              imm.FoolscapBucketReader.remote_read, imm.BucketReader.read, imm.BucketReader.get_length,
-             X.SS.get_buckets, X.SS.get_shares, X.SS.slot_readv, X.SS.get_mutable_share_length, X.SS.enumerate_mutable_shares)
+             X.SS.get_shares, X.SS.get_mutable_share_length, X.SS.enumerate_mutable_shares)
 
 RS, CS = X.tok("R", 1), X.tok("C", 1)
 _ILEASES = [X.ilease_rec(1, X.hashed(2, X.tok("r", i)), X.hashed(2, X.tok("c", i)), 1000 + i) for i in range(2)]
@@ -159,14 +159,19 @@ def h_read_mutable(dl: int, elo: int, has2: bool, mode: int, nv: int, o1: int, l
     pre: X.mutable_inv(dl, elo) and dl <= B["size_max"] and mode == B["mode"] and nv == B["nv"]
     pre: 0 <= o1 and B["ln_min"] <= l1 <= B["ln_max"] and 0 <= o2 and B["ln_min"] <= l2 <= B["ln_max"] and 0 <= p
     pre: B.get("has2") is None or has2 == (B["has2"] == 1)
-    pre: B.get("dl") is None or (dl == B["dl"] and elo == DATA_OFFSET + B["dl"] + 7)
     post: _ == True
     """
     return X.guard(_h_read_mutable, dl, elo, has2, mode, nv, o1, l1, o2, l2, p)
 
 
 def _h_read_mutable(dl, elo, has2, mode, nv, o1, l1, o2, l2, p):
-    mode, nv = _pin(mode, 0, 3), _pin(nv, 1, 2)
+    (mode, nv) = (B["mode"], B["nv"])
+    if B.get("has2") is not None:
+        has2 = bool(B["has2"])
+    if B.get("dl") is not None:                    # concrete container geometry (what a case does not vary is a plain value)
+        (dl, elo) = (B["dl"], DATA_OFFSET + B["dl"] + 7)
+    if B.get("second") is not None:                # concrete second read vector
+        (o2, l2) = B["second"]
     readv = [(o1, l1), (o2, l2)][:nv]
     assume(_cls_readv(mode, has2, l1 if nv == 1 or l1 < l2 else l2) not in EXCLUDED)
     res = {}
@@ -210,7 +215,7 @@ hlib.encoded(hs.HTTPServer.allocate_buckets, hs.HTTPServer.write_share_data, hs.
              hc.StorageClientImmutables._write_share_chunk, sc._HTTPStorageServer.allocate_buckets, sc._HTTPBucketWriter.write,
              sc._HTTPBucketWriter.close, sc._StorageServer.allocate_buckets, server_mod.FoolscapStorageServer.remote_allocate_buckets,
              imm.FoolscapBucketWriter.remote_write, imm.FoolscapBucketWriter.remote_close, imm.BucketWriter.write,
-             imm.BucketWriter.close, imm.BucketWriter._is_finished, imm.BucketWriter.required_ranges, X.SS.allocate_buckets)
+             imm.BucketWriter.close, imm.BucketWriter._is_finished, imm.BucketWriter.required_ranges)
 
 
 class _Canary(object):
@@ -366,6 +371,10 @@ def _h_upload(size, n, o1, l1, o2, l2, b2, o3, l3, b3, has1, p):
     assume(_cls_upload(size, chunks) not in EXCLUDED)
     verdicts, accepted = _model_upload(size, chunks)
     complete = len(accepted) == n and _union_len([(o, o + l) for (o, l, _t) in accepted]) == size
+    # client precondition: nothing more is sent once every byte has been written (the HTTP server finalises the share at that
+    # moment, the Foolscap one when close() is called: a write after completion is a client error on both, with different symptoms)
+    for i in range(1, len(verdicts)):
+        assume(_union_len([(o, o + l) for (o, l, _t) in accepted[:i]]) != size)
     (alloc_h, outs_h, closed_h, vis_h, rec, snap_h) = _upload("http", size, chunks, has1, True)
     (alloc_d, outs_d, closed_d, vis_d, _r, snap_d) = _upload("direct", size, chunks, has1, complete)
     want_alloc = ([1] if has1 else [], [0] if has1 else [0, 1])
@@ -412,13 +421,11 @@ def _h_upload(size, n, o1, l1, o2, l2, b2, o3, l3, b3, has1, p):
 
 # ---- read-test-write ------------------------------------------------------------------------------------------------------
 # self.log("testv failed: [%d]: %r" % (sharenum, testv)) formats the (symbolic) test vector: log statements of these methods are cut
-for _name in ("_evaluate_test_vectors", "_evaluate_write_vectors"):
-    if _name in vars(X.SS):
-        hlib.strip_method(X.SS, _name)
+# (cut in _httploop.py together with the other log statements of the StorageServer entry points)
 hlib.encoded(hs.HTTPServer.mutable_read_test_write, hc.StorageClientMutables.read_test_write_chunks,
              hc.StorageClientMutables._read_test_write_chunks, hc.TestWriteVectors.asdict,
              sc._HTTPStorageServer.slot_testv_and_readv_and_writev, sc._StorageServer.slot_testv_and_readv_and_writev,
-             server_mod.FoolscapStorageServer.remote_slot_testv_and_readv_and_writev, X.SS.slot_testv_and_readv_and_writev,
+             server_mod.FoolscapStorageServer.remote_slot_testv_and_readv_and_writev,
              X.SS._collect_mutable_shares_for_storage_index, X.SS._evaluate_read_vectors,
              X.SS._add_or_renew_leases, X.SS._make_lease_info)
 
@@ -470,8 +477,9 @@ def _h_rtw(dl, elo, has2, good_we, renewing, tl, so, sl, wo, wl, nlkind, newlen,
     has2, create1, renewing = bool(B["has2"]), bool(B["create1"]), bool(B["renewing"])
     if B.get("dl") is not None:
         (dl, elo) = (B["dl"], DATA_OFFSET + B["dl"] + 10)
+    so = 0
     if vary != "test":
-        (tl, so, sl) = (2, 0, 2)                    # passes whenever the share has two bytes
+        (tl, sl) = (2, 2)                    # passes whenever the share has two bytes
     if vary != "write":
         (wo, wl) = (dl, 3)                          # an append
     if vary != "read":
@@ -909,6 +917,9 @@ def h_client_read_chunk(code_k: int, ct: int, cr: int, start: int, stop: int, bl
 def _h_client_read_chunk(code_k, ct, cr, start, stop, blen, offset, length, mutable, p):
     code = _CODES[_pin(code_k, 0, len(_CODES) - 1)]
     ct, cr = _pin(ct, 0, 2), _pin(cr, 0, 3)
+    if code != 206 or ct != 0 or cr != 0:
+        # the numbers only matter for a 206 with the right content type and a Content-Range that parses
+        (start, stop, blen, offset, length, p) = (5, 15, 10, 5, 10, 3)
     del L._TAB[:]
     hdrs = L.Headers()
     if ct < 2:
